@@ -129,7 +129,7 @@ func Models() []Model {
 		texts = append(texts, fuzzInput{text: q, class: "translator-shape"})
 	}
 	// grammar corpus (VH_GRAMMAR): every production in every position, pairs in one rotating position
-	texts = append(texts, grammarTexts(1, envInt("VH_GRAMMAR_STRIDE", 1))...)
+	texts = append(texts, grammarTextsSk(1, envInt("VH_GRAMMAR_STRIDE", 1), envInt("VH_GRAMMAR_SKSTRIDE", 1), false)...)
 	var out []Model
 	seen := map[string]bool{}
 	for _, in := range texts {
